@@ -369,11 +369,14 @@ def check(ctx):
     th = py.func(MT, 'MainTransformer._pass3_callable_throws')
     TH = gsa.summarise(ctx, MT, 'MainTransformer._pass3_callable_throws')
     nd = re.escape(th.args.args[1].arg)
-    pop = gsa.find(TH, 'call', r'^%s\.parameters\.pop$' % nd)
+    # the parameter list may be reached through a local alias (`params = node.parameters`); removal of the last element is pop() / pop(-1) / del x[-1]
+    bases = ['%s\\.parameters' % nd] + [re.escape(t.id) for t, v, st in P.stores_in(th) if isinstance(t, ast.Name) and re.match(r'^%s\.parameters$' % nd, P.src(v))]
+    BASE = '(?:%s)' % '|'.join(bases)
+    pop = [e for e in gsa.find(TH, 'call', r'^%s\.pop$' % BASE) if e.args in ([], ['-1'])] + gsa.find(TH, 'del', r'^%s\[-1\]$' % BASE)
     thr = gsa.find(TH, 'store', r'^%s\.throws$' % nd, r'^True$')
-    GE = r"^%s\.parameters\[-1\]\.type\.ctype == 'GError\*\*'$" % nd
-    ok = len(pop) == 1 and len(thr) == 1 and not pop[0].args and gsa.equiv(pop[0].cond, thr[0].cond) and gsa.needs(TH, pop[0], GE) and \
-        gsa.allowed(TH, pop[0], [(GE, True), (r'\.parameters$', True)])
+    GE = r"^%s\[-1\]\.type\.ctype == 'GError\*\*'$" % BASE
+    ok = len(pop) == 1 and len(thr) == 1 and gsa.equiv(pop[0].cond, thr[0].cond) and gsa.needs(TH, pop[0], GE) and \
+        gsa.allowed(TH, pop[0], [(GE, True), (r'^%s$' % BASE, True)])
     r3.check(ok, 'trailing GError** removed and throws set together', mt.rel, th.lineno, 'pop: %s throws: %s' % (pop, thr))
     cb = py.func(MT, 'MainTransformer._pass3_callable_callbacks')
     CB = gsa.summarise(ctx, MT, 'MainTransformer._pass3_callable_callbacks')
